@@ -278,6 +278,69 @@ where
     }
 }
 
+/// The contents are built through ordinary (sequential) world operations. If the storages do not
+/// hold what those operations should have left - e.g. because entity deletion did not purge - the
+/// discrepancy belongs to the properties about those operations, not to the parallel join.
+fn verify_setup<A: TComp>(k: &Contents) -> Option<Viol>
+where
+    A::Storage: Default,
+{
+    use hibitset::BitSetLike;
+    let check = |name: &str, mask: Vec<u32>, model: Vec<u32>| -> Option<Viol> {
+        if mask != model {
+            Some(viol(
+                &["C05", "C04"],
+                "join-setup",
+                format!(
+                    "before any parallel join: storage {} holds indices {:?}..., the sequential setup (insert, delete_entities) should have left {:?}...",
+                    name,
+                    mask.iter().filter(|i| !model.contains(i)).take(5).collect::<Vec<_>>(),
+                    model.iter().filter(|i| !mask.contains(i)).take(5).collect::<Vec<_>>()
+                ),
+            ))
+        } else {
+            None
+        }
+    };
+    let m: Vec<u32> = k.world.read_storage::<A>().mask().iter().collect();
+    if let Some(v) = check("A", m, k.a.keys().copied().collect()) {
+        return Some(v);
+    }
+    let m: Vec<u32> = k.world.read_storage::<XDense>().mask().iter().collect();
+    if let Some(v) = check("XDense", m, k.xd.keys().copied().collect()) {
+        return Some(v);
+    }
+    let m: Vec<u32> = k.world.read_storage::<XFHash>().mask().iter().collect();
+    if let Some(v) = check("XFHash", m, k.xf.keys().copied().collect()) {
+        return Some(v);
+    }
+    let m: Vec<u32> = k.world.read_storage::<XBTree>().mask().iter().collect();
+    if let Some(v) = check("XBTree", m, k.xb.keys().copied().collect()) {
+        return Some(v);
+    }
+    let ents: Vec<Entity> = {
+        let e = k.world.entities();
+        let v: Vec<Entity> = (&e).join().collect();
+        v
+    };
+    let exp: Vec<Entity> = k.alive.values().copied().collect();
+    if ents != exp {
+        return Some(viol(&["C02"], "join-setup", "before any parallel join: the entities join differs from the entities the setup left alive".into()));
+    }
+    None
+}
+
+fn setup_failed(v: Viol) -> RunOut {
+    RunOut {
+        violation: Some(v),
+        stats: DriveStats::default(),
+        items: 0,
+        expected: 0,
+        recorded: None,
+        trace: 0,
+    }
+}
+
 /// What a worker saw for one item.
 #[derive(Clone, Debug)]
 pub struct Seen {
@@ -582,7 +645,21 @@ fn props_for(shape: Shape) -> Vec<&'static str> {
 macro_rules! run_for_kind {
     ($fname:ident, $A:ty, mutable) => {
         fn $fname(c: &JCase) -> RunOut {
-            let k = build::<$A>(c);
+            crate::util::probe_mark(&["C05", "C04"]);
+            let k = match std::panic::catch_unwind(std::panic::AssertUnwindSafe(|| build::<$A>(c))) {
+                Ok(k) => k,
+                Err(e) => {
+                    return setup_failed(viol(
+                        &["C05", "C04"],
+                        "join-setup",
+                        format!("building the contents through sequential world operations panicked: {}", crate::util::panic_message(&e)),
+                    ))
+                }
+            };
+            if let Some(v) = verify_setup::<$A>(&k) {
+                return setup_failed(v);
+            }
+            crate::util::probe_mark(&props_for(c.shape));
             let zst = <$A as TComp>::KIND.zst();
             let seed = c.seed;
             let exp = expected(c, &k);
@@ -771,7 +848,21 @@ macro_rules! run_for_kind {
     };
     ($fname:ident, $A:ty, readonly) => {
         fn $fname(c: &JCase) -> RunOut {
-            let k = build::<$A>(c);
+            crate::util::probe_mark(&["C05", "C04"]);
+            let k = match std::panic::catch_unwind(std::panic::AssertUnwindSafe(|| build::<$A>(c))) {
+                Ok(k) => k,
+                Err(e) => {
+                    return setup_failed(viol(
+                        &["C05", "C04"],
+                        "join-setup",
+                        format!("building the contents through sequential world operations panicked: {}", crate::util::panic_message(&e)),
+                    ))
+                }
+            };
+            if let Some(v) = verify_setup::<$A>(&k) {
+                return setup_failed(v);
+            }
+            crate::util::probe_mark(&props_for(c.shape));
             let exp = expected(c, &k);
             let ps = props_for(c.shape);
             let out: DriveOut = {
